@@ -41,6 +41,12 @@ def is_payload_size(t, spec):
 def slice_of(t):
     """decode Index::index(base, range) -> (base tree, kind, lo, hi) else None"""
     t = strip(t)
+    # x.split_at(n).0 == x[..n], x.split_at(n).1 == x[n..]  (also split_at_mut)
+    if t[0] == "field" and t[2] in ("0", "1"):
+        c = strip(t[1])
+        if c[0] == "call" and (c[1].endswith("::split_at") or c[1].endswith("::split_at_mut")) and len(c[2]) == 2:
+            base = strip(c[2][0])
+            return (base, "to", None, c[2][1]) if t[2] == "0" else (base, "from", c[2][1], None)
     if t[0] != "call" or not (t[1].endswith("::index") or t[1].endswith("::index_mut")) or len(t[2]) != 2:
         return None
     base, rng = strip(t[2][0]), strip(t[2][1])
@@ -203,7 +209,8 @@ def validate_before_publish(ctx, prog, spec, crc_kind, rule="R3"):
             if kind is None:
                 continue
             data = slice_of(crc[2][-1])
-            if data is None or not is_self_field(data[0], spec["buf"]) or data[1] != "range" or const_val(data[2]) != 0 or not is_payload_size(data[3], spec):
+            # the checksummed data is buf[0..n-4], however it is spelled (0..n, ..n, split_at(n).0)
+            if data is None or not is_self_field(data[0], spec["buf"]) or data[1] not in ("range", "to") or (data[1] == "range" and const_val(data[2]) != 0) or not is_payload_size(data[3], spec):
                 continue
             good_cmp.append((bi, t, kind, crc[3]))
             crc_site = {"callee_kind": kind, "slice": "%s[0..%s-%d]" % (spec["buf"], spec["size"], spec["checksum"])}
@@ -284,6 +291,22 @@ def serve_only_verified(ctx, prog, spec, rule="R4"):
                     sw, tr, fa = be
                     edges.append((sw, fa if callee_of(t).endswith("ne") else tr))
                     page_trees.append(strip_casts(y[2][0]))
+    # the same test spelled as a match: `Some(loaded) if loaded == page` -> switch on (self.key as Some).0 == page
+    for bi in f.cfg():
+        t = f.blocks[bi]["term"]
+        if t["k"] != "switch":
+            continue
+        dl = op_place(t["discr"])
+        d = R.place(dl) if dl else None
+        if not (d and d[0] == "binop" and d[1] in ("Eq", "Ne")):
+            continue
+        for x, y in ((d[2], d[3]), (d[3], d[2])):
+            if x[0] == "ok" and is_self_field(strip(x[1]), spec["key"]):
+                e = switch_edges(f, bi)
+                true_succ = e.get("1", e["otherwise"])
+                false_succ = e.get("0")
+                edges.append((bi, true_succ if d[1] == "Eq" else false_succ))
+                page_trees.append(strip_casts(strip(y)))
     for bi, t in f.calls(lambda c, t: c == spec["load"]):
         br = branch_of_call(f, bi)
         if br:
